@@ -73,6 +73,10 @@ func Classify(e *Expr) map[string]bool {
 			if e.S == "f" {
 				out["closure_in_map_call"] = true
 			}
+			if (e.S == "get" || e.S == "isAvail") && len(e.X) == 2 && (e.X[0].K == KMap || e.X[0].K == KVar) && len(e.X[0].Names) != 1 {
+				out["closure_in_map_call"] = true
+				out["closure_field_named_like_a_map_method"] = true
+			}
 			walk(e.X[0], inArg, condInArg, lamDepth)
 			for _, a := range e.X[1:] {
 				walk(a, "method_arg", false, lamDepth)
